@@ -481,6 +481,17 @@ func ruleExpiry(c *Ctx) {
 				}
 			}
 		}
+		// ... and only then: no other edge leaves the dispatch loop
+		seenOnly := g.ReachAfter(recvNode, func(x *Node) bool { return x == recvNode }, func(e *Edge) bool {
+			at, isAt := edgeAtom(info, e)
+			return isAt && at.Kind == "nil" && at.Op == token.NEQ && identObj(info, at.X) == errv && firstCondAfter(g, recvNode, e.From)
+		})
+		if _, leaves := seenOnly[g.Exit]; leaves {
+			c.R.Violate("R-EXPIRY", p.Pos(recvNode.Ast), f.Name, "Run ends only on receive error",
+				"the dispatch loop can end although the session/stream is healthy (e.g. when one inbound connection fails its negotiation): every later dial from the peer then waits for an ack forever", p.PathTo(seenOnly, g.Exit))
+		} else {
+			c.R.Hold("R-EXPIRY", p.Pos(recvNode.Ast), f.Name, "Run ends only on receive error", "every path from the receive to the function's exit takes the error edge of that receive", true)
+		}
 		if ok {
 			c.R.Hold("R-EXPIRY", p.Pos(recvNode.Ast), f.Name, "Run ends on receive error", "the error edge of the receive leaves the loop and returns", true)
 		} else {
